@@ -280,6 +280,8 @@ def truth(v):
     if k in ('str', 'bytes', 'bytearray'):
         return z3.Length(v.t) > 0
     if k == 'list':
+        if v.t is None:             # the untyped empty list literal
+            return z3.BoolVal(False)
         return z3.Length(v.t) > 0
     if k in ('ref', 'opaque') and is_opt(v.ty):
         return v.t != 0
